@@ -20,6 +20,7 @@ Supports expressions like:
 import ast
 import re
 import statistics
+import types
 import warnings
 from datetime import date as date_type
 from typing import Any, Dict, List, Optional, Set, Callable, Union
@@ -1367,6 +1368,25 @@ class TransactionEvaluator:
         # Store in scope for later access
         self._scope[var_name] = value
         return value
+
+
+def materialize(value: Any) -> Any:
+    """Turn generator objects (also inside lists) into lists.
+
+    Callers that turn an expression result into text (tags, transformed fields) must not
+    call str() on a generator object: that yields '<generator object ... at 0x...>'.
+    """
+    if isinstance(value, types.GeneratorType):
+        try:
+            value = list(value)
+        except ExpressionError:
+            raise
+        except Exception as e:
+            # the body of a generator expression runs lazily, outside evaluate()
+            raise ExpressionError(f"Cannot evaluate generator: {type(e).__name__}: {e}") from e
+    if isinstance(value, list):
+        return [materialize(v) for v in value]
+    return value
 
 
 # =============================================================================
